@@ -113,6 +113,7 @@ class Sym:
         self.call_marker = call_marker
         self.called = "false"
         self.at_call = None
+        self.symbols = {}                     # literal value -> Lean name of the regenerated constant (site specific)
         self.brk = "False"
         self.ret = "False"
         self.allow_return = False
@@ -206,6 +207,8 @@ class Sym:
             return self.expr(kids(n)[0])
         if k == "IntegerLiteral":
             v = int(n["value"])
+            if v in self.symbols:
+                return ("int", self.symbols[v])
             return ("int", str(v) if v >= 0 else "(%d)" % v)
         if k == "ImplicitCastExpr" and n.get("castKind") in ("LValueToRValue", "NoOp"):
             return self.expr(kids(n)[0])
@@ -272,7 +275,8 @@ class Sym:
                     c = int(lit["value"])
                     if c > 0 and c & (c - 1) == 0:
                         # x & 2^k on two's complement = bit k of x (Lean Int `/` and `%` round towards -inf for c > 0)
-                        return ("int", "(((%s / %d) %% 2) * %d)" % (ra, c, c))
+                        cs = self.symbols.get(c, str(c))
+                        return ("int", "(((%s / %s) %% 2) * %s)" % (ra, cs, cs))
                 raise OutOfGrammar("& with an operand that is not a power-of-two literal")
             rb = self.as_int(self.expr(b))
             if op in ("+", "-", "*"):
@@ -385,6 +389,15 @@ class Sym:
                 self.stmt(s)
         except OutOfGrammar as e:
             raise TieBroken(self.site, "%s: %s left the translator's grammar: %s" % (self.site, self.site, e))
+
+
+OBSERVERS = {"debug_message", "debug_message_with_src", "debug_message_with_location", "opt_trace", "DEBUG_CHECK",
+             "platform_atomic_load_int"}
+
+
+def is_observer(name):
+    """calls that only report: the logging family and verification hooks (`verif_*`, add-only observers under NEOLITH_VERIF)"""
+    return name is not None and (name in OBSERVERS or name.startswith("verif_"))
 
 
 def is_not_of(n, name):
@@ -538,6 +551,9 @@ def extract(bdir):
                % (refuse, sy.state["ticks"], sy.state["interval"]))
     sy = Sym("set_heart_beat:growth", ["max_heart_beats", "num_hb_objs"], {}, ["max_heart_beats", "num_hb_objs"])
     sy.nested_ok = True
+    m3 = _re0.search(r"#define\s+HEART_BEAT_CHUNK\s+(0x[0-9a-fA-F]+|\d+)", open(os.path.join(E.REPO, "lib/efuns/options.h")).read())
+    if m3:
+        sy.symbols = {int(m3.group(1), 0): "((heartBeatChunk : Nat) : Int)"}
     grow = [st for st in kids(app) if st.get("kind") == "IfStmt" and sy.writes_tracked(st)]
     if len(grow) != 1:
         raise TieBroken("set_heart_beat:growth", "expected one if-statement that grows max_heart_beats in the append branch")
@@ -612,6 +628,22 @@ def extract(bdir):
     info["timerSetsFlag"] = sy.state["heart_beat_flag"]
     out.append("/-- src/backend.c heartbeat_timer_callback: the value it leaves in heart_beat_flag (what the op `flag` emulates) -/\n"
                "def timerSetsFlag (heart_beat_flag : Int) : Int := %s\n" % sy.state["heart_beat_flag"])
+
+    # ---------------- efun wrappers: f_query_heart_beat answers query_heart_beat of ITS ARGUMENT, f_heart_beats the array -----
+    fq = ast_function(bdir, "lib/efuns/heart_beat.c", "f_query_heart_beat")
+    qcalls = [x for x in walk(fq) if x.get("kind") == "CallExpr" and Sym.callee(x) == "query_heart_beat"]
+    okq = len(qcalls) == 1 and dref(kids(qcalls[0])[1]) == "ob" and \
+        any(assign_of(x) and assign_of(x)[0] == "ob" and any(y.get("kind") == "MemberExpr" and y.get("name") == "ob" for y in walk(assign_of(x)[1]))
+            for x in walk(fq))
+    fh = ast_function(bdir, "lib/efuns/heart_beat.c", "f_heart_beats")
+    okh = len([x for x in walk(fh) if x.get("kind") == "CallExpr" and Sym.callee(x) == "get_heart_beats"]) == 1
+    if not okq or not okh:
+        raise TieBroken("efun:wrappers", "f_query_heart_beat is not `query_heart_beat (ob)` of its argument sp->u.ob, or f_heart_beats "
+                        "does not push get_heart_beats ()")
+    info["efunWrappers"] = [1, 1]
+    out.append("/-- lib/efuns/heart_beat.c: f_query_heart_beat answers query_heart_beat (sp->u.ob), f_heart_beats pushes\n"
+               "    get_heart_beats () (1 = shape found) -/\n"
+               "def efunWrappers : List Nat := [1, 1]\n")
 
     # ---------------- get_heart_beats: filled from the back ---------------------------------------------------------------
     gh = ast_function(bdir, "src/backend.c", "get_heart_beats")
@@ -892,8 +924,15 @@ def extract(bdir):
         raise TieBroken("call_heart_beat:frame", "the while loop is not a direct statement of the guarded block")
     frame_vars = ["num_hb_objs", "heart_beat_index", "num_hb_to_do", "heart_beat_flag", "current_heart_beat"]
 
+    def macro_value(relpath, name):
+        m_ = _re0.search(r"#define\s+%s\s+(0x[0-9a-fA-F]+|\d+)" % name, open(os.path.join(E.REPO, relpath)).read())
+        return int(m_.group(1), 0) if m_ else None
+    tfhb = macro_value("src/main.h", "TIMER_FLAG_HEARTBEAT")
+
     def frame_sym(site):
         sy = Sym(site, frame_vars, {"timer_flags": "timer_flags"}, frame_vars + ["timer_flags"])
+        if tfhb is not None:
+            sy.symbols = {tfhb: "((timerFlagHeartbeat : Nat) : Int)"}
         return sy
     sy = frame_sym("call_heart_beat:round-entry")
     sy.run(ctop[:fi])
@@ -982,7 +1021,7 @@ def extract(bdir):
         """no store to a global / through a pointer other than the countdown, no call except tracing"""
         for x in walk(st):
             k = x.get("kind")
-            if k == "CallExpr" and Sym.callee(x) not in ("debug_message", "debug_message_with_src", "platform_atomic_load_int"):
+            if k == "CallExpr" and not is_observer(Sym.callee(x)):
                 return False
             if k in ("BinaryOperator", "CompoundAssignOperator") and x.get("opcode", "").endswith("=") and \
                     x.get("opcode") not in ("==", "!=", "<=", ">="):
@@ -1059,8 +1098,14 @@ def extract(bdir):
             if not is_zero(assign_of(st)[1]):
                 raise TieBroken("error_handler:block", "current_heart_beat is not reset to 0")
             eblock.append(2)
-        elif st.get("kind") == "CallExpr" and Sym.callee(st) in ("debug_message", "add_message"):
+        elif st.get("kind") == "CallExpr" and (Sym.callee(st) == "add_message" or is_observer(Sym.callee(st))):
             continue
+        elif all(is_observer(Sym.callee(x)) for x in walk(st) if x.get("kind") == "CallExpr") and \
+                any(x.get("kind") == "CallExpr" for x in walk(st)) and \
+                not any(x.get("kind") in ("BinaryOperator", "CompoundAssignOperator") and x.get("opcode", "").endswith("=") and
+                        x.get("opcode") not in ("==", "!=", "<=", ">=") for x in walk(st)) and \
+                not any(x.get("kind") in ("ReturnStmt", "GotoStmt") for x in walk(st)):
+            continue        # e.g. `if (verif_hook) verif_hook (...)`
         else:
             raise TieBroken("error_handler:block", "unknown statement in the `if (current_heart_beat)` block of error_handler")
     info["errOrder"] = eorder
@@ -1099,6 +1144,15 @@ def extract(bdir):
         line = text[text.rfind(b"\n", 0, off) + 1: text.find(b"\n", off)].decode(errors="replace").strip()
         if _re.match(r"static int (heart_beat_index|num_hb_to_do) = 0;$", line):
             continue
+        # a read inside a verification accessor (`verif_*`, NEOLITH_VERIF) is an observer, not a second writer
+        head = b""
+        for hl in reversed(text[:off].split(b"\n")):
+            if _re.match(rb"[A-Za-z_].*\(", hl) and not hl.startswith((b" ", b"\t")):
+                head = hl
+                break
+        writes = _re.search(r"\b(heart_beat_index|num_hb_to_do)\s*(=[^=]|\+\+|--|[-+*/]=)|(\+\+|--)\s*(heart_beat_index|num_hb_to_do)\b|&\s*(heart_beat_index|num_hb_to_do)\b", line)
+        if b"verif_" in head and not writes:
+            continue
         stray.append(line)
     if stray:
         raise TieBroken("backend.c:cursor-uses", "heart_beat_index / num_hb_to_do are used outside set_heart_beat and "
@@ -1123,9 +1177,9 @@ def extract(bdir):
         raise TieBroken("set_heart_beat:compensation", "set_heart_beat writes heart_beat_index / num_hb_to_do outside the "
                         "removal-branch statements that were translated")
     count_writes(chb)
-    known_calls = {"memmove", "memcpy", "debug_message", "fatal", "opt_trace", "DEBUG_CHECK"}
+    known_calls = {"memmove", "memcpy", "fatal"}
     for x in walk(removal):
-        if x.get("kind") == "CallExpr" and Sym.callee(x) not in known_calls:
+        if x.get("kind") == "CallExpr" and Sym.callee(x) not in known_calls and not is_observer(Sym.callee(x)):
             raise TieBroken("set_heart_beat:removal-calls", "the removal branch calls %s, which the translator does not "
                             "look into" % Sym.callee(x))
 
